@@ -1,10 +1,15 @@
 import OasisModel.Staking.SharePool
 import OasisModel.Staking.Debond
+import OasisModel.Staking.Commission
 /-
 Model of the staking ledger (property C05): every path of oasis-core that moves base units.
 
   go/consensus/cometbft/apps/staking/state/gas.go            AuthenticateAndPayFees            payFee
-  go/consensus/cometbft/apps/staking/transactions.go         transfer/burn/addEscrow/reclaimEscrow/allow/withdraw
+  go/consensus/cometbft/apps/staking/transactions.go         transfer/burn/addEscrow/reclaimEscrow/allow/withdraw/
+                                                             amendCommissionSchedule (go/staking/api/commission.go:
+                                                             OasisModel/Staking/Commission.lean); gas charges
+  go/consensus/cometbft/apps/staking/staking.go              ExecuteMessage: runtime messages (roothash
+                                                             processRuntimeMessages) Transfer/Withdraw/AddEscrow/ReclaimEscrow
   go/consensus/cometbft/apps/staking/fees.go                 disburseFeesP / disburseFeesVQ
   go/consensus/cometbft/apps/staking/staking.go              BeginBlock / EndBlock / onEpochChange
   go/consensus/cometbft/apps/staking/{signing,proposing}_rewards.go, slashing.go
@@ -24,7 +29,7 @@ open OasisModel SharePool
 inductive LErr where
   | forbidden | invalidArgument | insufficientBalance | balanceTooLow | underMinTransfer
   | underMinDelegation | invalidNonce | tooManyAllowances | allowanceGtSupply | badAccount
-  | outOfGas | fatal
+  | outOfGas | insufficientStake | badSchedule | fatal
   deriving DecidableEq, Repr, Inhabited
 
 def LErr.toString : LErr → String
@@ -33,12 +38,24 @@ def LErr.toString : LErr → String
   | .underMinTransfer => "under-min-transfer" | .underMinDelegation => "under-min-delegation"
   | .invalidNonce => "invalid-nonce" | .tooManyAllowances => "too-many-allowances"
   | .allowanceGtSupply => "allowance-gt-supply" | .badAccount => "bad-account"
-  | .outOfGas => "out-of-gas" | .fatal => "fatal"
+  | .outOfGas => "out-of-gas" | .insufficientStake => "insufficient-stake"
+  | .badSchedule => "bad-schedule" | .fatal => "fatal"
 
 def LErr.ofQ : QErr → LErr
   | .insufficientBalance => .insufficientBalance
   | .invalidArgument => .invalidArgument
   | _ => .fatal
+
+/-- `ConsensusParameters.GasCosts` of the staking operations (gas per operation). -/
+structure GasCosts where
+  transfer : Nat := 0
+  burn : Nat := 0
+  addEscrow : Nat := 0
+  reclaimEscrow : Nat := 0
+  amendCommissionSchedule : Nat := 0
+  allow : Nat := 0
+  withdraw : Nat := 0
+  deriving Repr
 
 structure Params where
   minTransactBalance : Nat := 0
@@ -64,8 +81,21 @@ structure Params where
   pkOrder : List Nat := []                     -- entity account numbers in public-key order
   validators : List Nat := []                  -- validator number ↦ entity account number
   gasPerByte : Nat := 0                        -- consensus `GasOpTxByte` cost (charged by the mux)
-  gasCostOp : Nat := 0                         -- staking `GasCosts` of a transaction's operation
+  gasCosts : GasCosts := {}                    -- staking `GasCosts`, per operation
+  -- `CommissionScheduleRules` (with `minCommissionRate` above)
+  rateChangeInterval : Nat := 1
+  rateBoundLead : Nat := 0
+  maxRateSteps : Nat := 0
+  maxBoundSteps : Nat := 0
+  /-- `Thresholds[KindEntity] + Thresholds[KindNodeValidator]`: active escrow balance an account needs
+  to amend its commission schedule. -/
+  commissionStakeThreshold : Nat := 0
+  allowEscrowMessages : Bool := false          -- runtimes may AddEscrow / ReclaimEscrow by message
   deriving Repr
+
+def Params.rules (p : Params) : Rules :=
+  { rateChangeInterval := p.rateChangeInterval, rateBoundLead := p.rateBoundLead, maxRateSteps := p.maxRateSteps,
+    maxBoundSteps := p.maxBoundSteps, minCommissionRate := p.minCommissionRate }
 
 /-- `RewardAmountDenominator` (go/staking/api/rewards.go). -/
 def rewardAmountDenominator : Nat := 100000000
@@ -76,7 +106,7 @@ structure Account where
   allowances : List (Nat × Nat) := []          -- beneficiary ↦ allowance, no zero entries
   active : SharePool := { balance := 0, totalShares := 0 }
   debonding : SharePool := { balance := 0, totalShares := 0 }
-  commission : Option Nat := none              -- `CommissionSchedule.CurrentRate`, constant in the model
+  schedule : Schedule := {}                    -- `Escrow.CommissionSchedule`
   deriving Repr, Inhabited
 
 def Account.bal (a : Account) : Nat := a.general + a.active.balance + a.debonding.balance
@@ -111,6 +141,11 @@ def setAcct (l : Ledger) (a : Nat) (x : Account) : Ledger := { l with acct := up
 
 def setDel (l : Ledger) (escrow delegator shares : Nat) : Ledger :=
   { l with del := upd l.del escrow (upd (l.del escrow) delegator shares) }
+
+/-- The commission rate `computeCommission` is called with at `epoch`: `CurrentRate(epoch)` of the
+account's schedule, `MinCommissionRate` when no step has started. -/
+def rateOf (l : Ledger) (a epoch : Nat) : Nat :=
+  ((l.acct a).schedule.currentRate epoch).getD l.params.minCommissionRate
 
 /-! ### Transactions -/
 
@@ -240,6 +275,19 @@ def withdraw (l : Ledger) (dst src amount : Nat) : Except LErr Ledger :=
                     { a with general := a.general - amount,
                              allowances := setAllow a.allowances dst (cur - amount) })
 
+/-- `amendCommissionSchedule`: only accounts with enough active escrow may keep a schedule; the
+amendment is applied to the pruned schedule and the result validated (`AmendAndPruneAndValidate`);
+a refused amendment persists nothing (the pruned / spliced in-memory copy is dropped). -/
+def amendCommissionSchedule (l : Ledger) (src : Nat) (am : Schedule) : Except LErr Ledger :=
+  if l.isReserved src then .error .forbidden
+  else
+    let a := l.acct src
+    if a.active.balance < l.params.commissionStakeThreshold then .error .insufficientStake
+    else
+      match a.schedule.amendAndPruneAndValidate am l.params.rules l.epoch with
+      | none => .error .badSchedule
+      | some s' => .ok (l.setAcct src { a with schedule := s' })
+
 inductive TxBody where
   | transfer (dst amount : Nat)
   | burn (amount : Nat)
@@ -247,6 +295,7 @@ inductive TxBody where
   | reclaimEscrow (escrow shares : Nat)
   | allow (beneficiary : Nat) (negative : Bool) (change : Nat)
   | withdraw (src amount : Nat)
+  | amend (amendment : Schedule)
   deriving Repr
 
 def execBody (l : Ledger) (signer : Nat) : TxBody → Except LErr Ledger
@@ -256,6 +305,17 @@ def execBody (l : Ledger) (signer : Nat) : TxBody → Except LErr Ledger
   | .reclaimEscrow escrow shares => reclaimEscrow l signer escrow shares
   | .allow b neg ch => allow l signer b neg ch
   | .withdraw src amount => withdraw l signer src amount
+  | .amend am => amendCommissionSchedule l signer am
+
+/-- `params.GasCosts[op]` of the operation a transaction body performs. -/
+def opCost (p : Params) : TxBody → Nat
+  | .transfer .. => p.gasCosts.transfer
+  | .burn .. => p.gasCosts.burn
+  | .addEscrow .. => p.gasCosts.addEscrow
+  | .reclaimEscrow .. => p.gasCosts.reclaimEscrow
+  | .allow .. => p.gasCosts.allow
+  | .withdraw .. => p.gasCosts.withdraw
+  | .amend .. => p.gasCosts.amendCommissionSchedule
 
 /-- Gas limit of the transaction's fee (`fee.Gas`) and its encoded size. -/
 structure TxGas where
@@ -263,9 +323,10 @@ structure TxGas where
   size : Nat := 0
   deriving Repr
 
-/-- Gas accounting around the body: the mux charges per transaction byte, each handler charges its
-operation first thing (after the zero-shares check in `reclaimEscrow`); running out of gas fails the
-transaction like any other error — fee and nonce stay. -/
+/-- Gas accounting around the body: the mux charges per transaction byte (`GasOpTxByte` × size), each
+handler charges its operation's cost first thing (after the zero-shares check in `reclaimEscrow`),
+before it reads or writes any state; running out of gas at either point fails the transaction like any
+other error — nothing but fee and nonce is persisted. -/
 def execBodyGas (l : Ledger) (signer : Nat) (g : TxGas) (body : TxBody) : Except LErr Ledger :=
   let used := g.size * l.params.gasPerByte
   if g.limit < used then .error .outOfGas
@@ -273,10 +334,10 @@ def execBodyGas (l : Ledger) (signer : Nat) (g : TxGas) (body : TxBody) : Except
     match body with
     | .reclaimEscrow _ sh =>
       if sh = 0 then .error .invalidArgument
-      else if g.limit < used + l.params.gasCostOp then .error .outOfGas
+      else if g.limit < used + opCost l.params body then .error .outOfGas
       else execBody l signer body
     | _ =>
-      if g.limit < used + l.params.gasCostOp then .error .outOfGas else execBody l signer body
+      if g.limit < used + opCost l.params body then .error .outOfGas else execBody l signer body
 
 /-- One transaction as the mux processes it in DeliverTx: authenticate and pay the fee, charge gas,
 then the body.  Returns the persisted ledger and the error, if any: a failing fee payment persists
@@ -364,13 +425,13 @@ def activeStep (sched : List (Nat × Nat)) (epoch : Nat) : Option Nat :=
 /-- Common tail of `AddRewards` / `AddRewardSingleAttenuated` for one account: split the reward `q`
 into commission and rest, add the rest to the active balance (raising the share price), deposit the
 commission for the account's self-delegation. -/
-def rewardAccount (l : Ledger) (a q : Nat) : Except LErr Ledger :=
+def rewardAccount (l : Ledger) (epoch a q : Nat) : Except LErr Ledger :=
   if q = 0 then .ok l
   else if q > l.common then .ok l
   else
     let ac := l.acct a
-    let rate := ac.commission.getD l.params.minCommissionRate
-    match computeCommission rate q with
+    -- `ent.Escrow.CommissionSchedule.CurrentRate(time)`, `MinCommissionRate` if nil
+    match computeCommission (l.rateOf a epoch) q with
     | .error _ => .error .fatal
     | .ok (com, rest) =>
       -- `quantity.Move(&ent.Escrow.Active.Balance, commonPool, q)`
@@ -394,23 +455,23 @@ def addRewardSingleAttenuated (l : Ledger) (epoch factor num den a : Nat) : Exce
     else if den = 0 then .error .fatal
     else
       let q := (l.acct a).active.balance * factor * scale * num / rewardAmountDenominator / den
-      rewardAccount l a q
+      rewardAccount l epoch a q
 
-def addRewardsLoop (l : Ledger) (factor scale : Nat) : List Nat → Except LErr Ledger
+def addRewardsLoop (l : Ledger) (epoch factor scale : Nat) : List Nat → Except LErr Ledger
   | [] => .ok l
   | a :: as =>
     if l.isReserved a then .error .fatal
     else
       let q := (l.acct a).active.balance * factor * scale / rewardAmountDenominator
-      match rewardAccount l a q with
+      match rewardAccount l epoch a q with
       | .error e => .error e
-      | .ok l1 => addRewardsLoop l1 factor scale as
+      | .ok l1 => addRewardsLoop l1 epoch factor scale as
 
 /-- `AddRewards`. -/
 def addRewards (l : Ledger) (epoch factor : Nat) (addrs : List Nat) : Except LErr Ledger :=
   match activeStep l.params.rewardSchedule epoch with
   | none => .ok l
-  | some scale => addRewardsLoop l factor scale addrs
+  | some scale => addRewardsLoop l epoch factor scale addrs
 
 def bumpSigning (sigBy : Nat → Nat) : List Nat → Nat → Nat
   | [] => sigBy
@@ -530,7 +591,7 @@ def transferFromCommon (l : Ledger) (dst amount : Nat) (escrow : Bool) : Except 
     else
       let step1 : Except LErr (Nat × SharePool × Nat) :=       -- (general, active, commission)
         if a.active.totalShares ≠ 0 then
-          match computeCommission (a.commission.getD l.params.minCommissionRate) transferred with
+          match computeCommission (l.rateOf dst l.epoch) transferred with
           | .error _ => .error .fatal
           | .ok (com, rest) =>
             if m.1 < rest then .error .fatal
@@ -610,20 +671,53 @@ def wfB (l : Ledger) : Bool :=
     ((l.acct i).active.totalShares != 0 || (l.acct i).active.balance == 0) &&
     ((l.acct i).debonding.totalShares != 0 || (l.acct i).debonding.balance == 0))
 
+/-- Every account's commission schedule passes `PruneAndValidate` at the genesis epoch
+(`SanityCheckAccount`; the stored schedule is the unpruned one). -/
+def schedulesB (l : Ledger) : Bool :=
+  (List.range l.n).all (fun i => ((l.acct i).schedule.pruneAndValidate l.params.rules l.epoch).isSome)
+
 /-- `InitChain`: the genesis document is accepted iff the declared total supply is what the parts
-add up to and the share totals match the delegations; last-block fees of the genesis document are
+add up to, the share totals match the delegations and the commission schedules are valid; last-block fees of the genesis document are
 moved to the common pool. -/
 def genesis (l : Ledger) : Except LErr Ledger :=
   let l1 := { l with common := l.common + l.lastBlockFees, lastBlockFees := 0, lbfSpent := false, feeAcc := 0,
                      burned := 0, proposer := none, epochChanged := false }
-  if invB l1 && wfB l1 then .ok l1 else .error .fatal
+  if invB l1 && wfB l1 && schedulesB l1 then .ok l1 else .error .fatal
+
+/-! ### Runtime messages
+
+`roothash.processRuntimeMessages` publishes the staking messages a runtime emitted in a finalized
+round to `ExecuteMessage` with the runtime's account (`NewRuntimeAddress(id)`) as caller and a no-op
+gas accountant (gas was accounted when the messages were submitted): no fee, no nonce, no gas.  The
+handlers are the transaction handlers; `AddEscrow` / `ReclaimEscrow` additionally require
+`AllowEscrowMessages`.  A failing message leaves the state as it was (the handlers write only after
+their last check; `withdraw` runs in a sub-transaction) and is reported in the round's message
+results. -/
+
+inductive MsgBody where
+  | transfer (dst amount : Nat)
+  | withdraw (src amount : Nat)
+  | addEscrow (escrow amount : Nat)
+  | reclaimEscrow (escrow shares : Nat)
+  deriving Repr
+
+def execMsg (l : Ledger) (rt : Nat) : MsgBody → Except LErr Ledger
+  | .transfer dst amount => transfer l rt dst amount
+  | .withdraw src amount => withdraw l rt src amount
+  | .addEscrow escrow amount =>
+    if !l.params.allowEscrowMessages then .error .forbidden else addEscrow l rt escrow amount
+  | .reclaimEscrow escrow shares =>
+    if shares = 0 then .error .invalidArgument
+    else if !l.params.allowEscrowMessages then .error .forbidden
+    else reclaimEscrow l rt escrow shares
 
 /-! ### Histories: blocks of operations -/
 
-/-- What can happen between BeginBlock and EndBlock: transactions, and the state movers other
+/-- What can happen between BeginBlock and EndBlock: transactions, runtime messages, and the state movers other
 applications call (roothash slashing and rewards, scheduler rewards, governance deposits). -/
 inductive Op where
   | tx (signer nonce fee : Nat) (gas : TxGas) (body : TxBody)
+  | msg (runtime : Nat) (body : MsgBody)
   | slash (a amount : Nat)
   | transferFromCommon (dst amount : Nat) (escrow : Bool)
   | addRewards (epoch factor : Nat) (addrs : List Nat)
@@ -640,6 +734,7 @@ def keep (l : Ledger) : Except LErr Ledger → Ledger
 (a transaction: apart from fee and nonce). -/
 def applyOp (l : Ledger) : Op → Ledger
   | .tx s n f g b => (applyTx l s n f g b).1
+  | .msg rt b => keep l (execMsg l rt b)
   | .slash a amt => keep l (slashEscrowL l a amt)
   | .transferFromCommon d amt e => keep l (transferFromCommon l d amt e)
   | .addRewards ep f as => keep l (addRewards l ep f as)
